@@ -83,6 +83,15 @@ attribute whose name starts with `parent_` (C18-r62: generalising parent_id shad
 the public `WBS.remove`, that method may raise only for argument-type guards - a guard on the task's state (`task.wbs is not
 self`, `task not in self.tasks`) is refuted: a match that left with a removed ancestor makes remove_all raise midway (C18-r63).
 
+Round 7: a walker flattened into one loop over `[current] + list(current.all_children)` (also built with `+=` / `.extend`) that
+tries `candidate.children.remove(task)` on every candidate is read as a walk: the candidates must be the node AND all its
+descendants (only `current.children`, no `[current]`, a slice are refuted); "no recursive call" is refuted only when the walker
+has no loop at all, otherwise UNDECIDED.  `<no filters given> or search(t, **kwargs)` (`not kwargs`, `len(kwargs) == 0`, ..) and
+`search(..) if kwargs else True` are the keyword filters applied; `kwargs or search(..)` / an operand about the task stay refuted.
+A remove_all that has no up-front query but evaluates one per task inside a nested predicate handed to the removing walk is
+refuted by name (C18-r73: the filters see a partially pruned tree); no query at all but calls the rule does not follow ->
+UNDECIDED.
+
 Shapes followed since round 3: the attribute resolver is today's `__get_task_attribute` or - when that anchor is gone - the
 one package function `search` calls as `<fn>(<task>, <name>)` (moved to module level, to another class, nested in `__call__`);
 a filter of the result comprehension / selection loop that calls a predicate nested in `__call__` (or a local bound to a
@@ -1818,9 +1827,30 @@ def _kw_filter(ctx, f, search, at, pol, KW, Tn):
         if pol:
             return 'ok'
         return ('bad', f"the keyword filters are applied negated (`not {src(c)}`)")
+    def empty_kw(e) -> Optional[bool]:
+        """e says `no keyword filters were given` -> True, `some were given` -> False, anything else -> None"""
+        for pat, val in ((f"not {KW}", True), (f"len({KW}) == 0", True), (f"0 == len({KW})", True), (f"not len({KW})", True),
+                         (f"{KW} == {{}}", True), (f"len({KW}) < 1", True), (KW, False), (f"len({KW}) > 0", False), (f"len({KW})", False),
+                         (f"len({KW}) != 0", False), (f"bool({KW})", False), (f"len({KW}) >= 1", False)):
+            if match(pat, e):
+                return val
+        return None
+
+    def is_call(e):
+        return e is c or bool(match(f"bool({src(c)})", e))
+
     if isinstance(at, ast.BoolOp) and isinstance(at.op, ast.Or):
-        return ('bad', f"the keyword filters are or-ed with another condition (`{src(at)}`): a task that fails them can still be "
-                       f"returned; every filter must hold")
+        others = [v for v in at.values if not is_call(v)]
+        if len(others) == len(at.values) - 1 and all(empty_kw(v) is True for v in others):
+            # `<no filters given> or search(t, **kwargs)`: search of an empty dict is True anyway
+            return 'ok' if pol else ('bad', f"the keyword filters are applied negated (`not ({src(at)})`)")
+        if any(Tn in names_in(v) or empty_kw(v) is False for v in others):
+            return ('bad', f"the keyword filters are or-ed with another condition (`{src(at)}`): a task that fails them can still be "
+                           f"returned; every filter must hold")
+        return None
+    if isinstance(at, ast.IfExp) and pol and ((is_call(at.body) and empty_kw(at.test) is False and _is_const(at.orelse, True)) or
+                                              (is_call(at.orelse) and empty_kw(at.test) is True and _is_const(at.body, True))):
+        return 'ok'              # search(..) if kwargs else True
     if isinstance(at, ast.IfExp):
         in_body = any(x is c for x in ast.walk(at.body))
         in_else = any(x is c for x in ast.walk(at.orelse))
@@ -2040,7 +2070,25 @@ def _remove_all(ctx):
         qcalls = [ci for ci in ctx.cg.calls_in(f) if ci.kind == 'call' and isinstance(ci.node, ast.Call) and
                   any(t is not None and t.qual == 'task._ImmutableTaskList.__call__' for t in ci.targets)]
         if not qcalls:
-            o.refute(f, f.node, 'query', "remove_all does not query the list with (key, **kwargs): the tasks to delete are not the matches")
+            # a query evaluated lazily, per task, inside a nested predicate that is handed to the code that removes
+            lazy = []
+            for g in prog.all_funcs():
+                if g.parent is not None and g.parent.qual == prog.func(qual).qual:
+                    lazy += [(g, ci.node) for ci in ctx.cg.calls_in(g) if ci.kind == 'call' and isinstance(ci.node, ast.Call) and
+                             any(t is not None and t.qual == 'task._ImmutableTaskList.__call__' for t in ci.targets)]
+            calls_out = [n for n in walk_no_nested(f.node) if isinstance(n, ast.Call) and not (
+                isinstance(n.func, ast.Name) and n.func.id in ('_ImmutableTaskList', 'len', 'bool', 'list', 'tuple', 'set', 'id', 'iter'))]
+            if lazy:
+                g, qn = lazy[0]
+                o.refute(f, qn, qn, f"the matching tasks are not selected up front: `{src(qn)[:80]}` is evaluated per task inside `{g.name}` "
+                                    f"while the walk is already removing tasks, so the filters see a partially pruned tree (a predicate that "
+                                    f"looks at children / parent matches tasks that did not match when remove_all was called); query first "
+                                    f"(`self.tasks(key, **kwargs)`), then remove")
+            elif calls_out:
+                o.undecided(f, calls_out[0], 'query', f"no query `(key, **kwargs)` in {f.qual} itself; it may be done by "
+                                                      f"`{src(calls_out[0])[:80]}`, which this rule does not follow")
+            else:
+                o.refute(f, f.node, 'query', "remove_all does not query the list with (key, **kwargs): the tasks to delete are not the matches")
             return
         tasks_site = [False]
 
@@ -2604,6 +2652,113 @@ def _remove_all(ctx):
                 continue
             o.site(f, n, f"while {W}: {N} = {W}.pop(); ..; {src(n)[:70]}")
 
+    def flat_walk(o, f, TASK, CUR, cfg, ex) -> bool:
+        """the walk flattened into one loop over the node and all its descendants:
+               for candidate in [current] + list(current.all_children):
+                   if candidate.children.remove(task): return True
+        (nothing changes until the task is found, so the candidates may be listed up front).  Returns False when the function
+        does not have this shape at all (the caller then goes on with the recursive reading)."""
+        loops = []
+        for fo in walk_no_nested(f.node):
+            if isinstance(fo, ast.For) and isinstance(fo.target, ast.Name):
+                v = fo.target.id
+                for c in facts.calls_named(f, 'remove'):
+                    if any(x is c for st in fo.body for x in ast.walk(st)) and len(c.args) == 1 and match(TASK, c.args[0]) \
+                            and isinstance(c.func, ast.Attribute):
+                        cn = cfg.node_containing(c)
+                        recv = ex.expand(c.func.value, cn, stop={v}) if cn is not None else c.func.value
+                        if match(f"{v}.children", recv) or match(f"{v}._Task__children", recv):
+                            loops.append((fo, c))
+        if len(loops) != 1:
+            return False
+        fo, c = loops[0]
+        v = fo.target.id
+
+        def concat(e, depth=0):
+            """terms of `A + B + ..`; a local built by `x = A; x += B; x.extend(C)` (straight-line, before the loop) is unfolded"""
+            if isinstance(e, ast.BinOp) and isinstance(e.op, ast.Add):
+                l, r = concat(e.left, depth), concat(e.right, depth)
+                return None if l is None or r is None else l + r
+            if isinstance(e, ast.Name) and depth < 3 and e.id not in f.params:
+                parts = []
+                for st in f.node.body:
+                    if st is fo:
+                        break
+                    tg = st.targets if isinstance(st, ast.Assign) else ([st.target] if isinstance(st, (ast.AugAssign, ast.AnnAssign)) else [])
+                    if any(isinstance(t, ast.Name) and t.id == e.id for t in tg):
+                        if isinstance(st, ast.AugAssign):
+                            if not isinstance(st.op, ast.Add) or not parts:
+                                return None
+                            parts.append(st.value)
+                        elif getattr(st, 'value', None) is not None:
+                            parts = [st.value]
+                    elif isinstance(st, ast.Expr) and isinstance(st.value, ast.Call) and isinstance(st.value.func, ast.Attribute) \
+                            and match(e.id, st.value.func.value) and len(st.value.args) == 1 and parts:
+                        if st.value.func.attr == 'extend':
+                            parts.append(st.value.args[0])
+                        elif st.value.func.attr == 'append':
+                            parts.append(ast.List(elts=[st.value.args[0]], ctx=ast.Load()))
+                        else:
+                            return None
+                    elif any(isinstance(n, ast.Name) and n.id == e.id for n in ast.walk(st)):
+                        if any(isinstance(n, ast.Name) and n.id == e.id and isinstance(n.ctx, ast.Store) for n in ast.walk(st)):
+                            return None
+                if not parts:
+                    return None
+                out = []
+                for x in parts:
+                    t = concat(x, depth + 1)
+                    if t is None:
+                        return None
+                    out += t
+                return out
+            return [e]
+
+        it = ex.expand(fo.iter, cfg.node_of(fo))
+        terms = concat(it)
+        if terms is None:
+            o.undecided(f, fo, fo.iter, f"the candidates `{src(it)[:80]}` of the flat walk are not understood")
+            return True
+        kinds = []
+        for t in terms:
+            w = _whole(t, lambda e: bool(match(f"{CUR}.all_children", e) or match(f"{CUR}.all_children._list", e)))
+            wk = _whole(t, lambda e: bool(match(f"{CUR}.children", e) or match(f"{CUR}._Task__children", e)))
+            if isinstance(t, (ast.List, ast.Tuple)) and len(t.elts) == 1 and match(CUR, t.elts[0]):
+                kinds.append('self')
+            elif w == 'whole':
+                kinds.append('desc')
+            elif isinstance(w, tuple):
+                o.refute(f, fo, t, f"the flat walk skips tasks of the subtree: {w[1]}")
+                return True
+            elif wk == 'whole' or isinstance(wk, tuple):
+                kinds.append('kids')
+            else:
+                o.undecided(f, fo, t, f"candidate term `{src(t)[:80]}` is neither `[{CUR}]` nor `{CUR}.all_children`")
+                return True
+        o.site(f, c, src(c))
+        if 'desc' not in kinds:
+            if 'kids' in kinds:
+                o.refute(f, fo, it, f"the walk visits only `{CUR}`'s direct children (`{src(it)[:80]}`): tasks nested deeper cannot be removed; "
+                                    f"the candidates must be `{CUR}` and all its descendants")
+            else:
+                o.refute(f, fo, it, f"the walk does not descend into the children (`{src(it)[:80]}`): only root tasks can be removed")
+            return True
+        if 'self' not in kinds:
+            o.refute(f, fo, it, f"the candidates `{src(it)[:80]}` leave out `{CUR}` itself: its direct children (the root tasks) cannot be removed")
+            return True
+        for ex0 in _loop_exits(fo):
+            conds = facts.node_conditions(prog, f, ex0, ctx.typer, expand=False)
+            if not any(any(is_direct_text(x) or (isinstance(x, ast.Call) and x is c) for x in ast.walk(t)) and pol for t, pol in conds):
+                o.undecided(f, ex0, ex0, f"`{src(ex0)}` leaves the candidate loop under a condition other than 'the task was found and removed'")
+                return True
+        bad = [(t, p) for t, p in facts.node_conditions(prog, f, c, ctx.typer, expand=False)
+               if not (match(f"{TASK} is None", t) and not p) and not any(x is c for x in ast.walk(t))]
+        if bad:
+            o.undecided(f, c, c, "the removal attempt is conditional: " + ', '.join(facts.cond_texts(bad)))
+            return True
+        o.site(f, fo, f"for {v} in [{CUR}] + {CUR}.all_children: {src(c)}")
+        return True
+
     def tree_walk(o):
         start = None
         if walkers:
@@ -2691,6 +2846,9 @@ def _remove_all(ctx):
                 sum(isinstance(n, ast.While) for n in walk_no_nested(f.node)) == 1:
             iterative_walk(o, f, TASK, CUR, cfg, ex)
             return
+        if not any(g.name in by_name for _, g in self_calls(f)) and \
+                not any(isinstance(n, ast.While) for n in walk_no_nested(f.node)) and flat_walk(o, f, TASK, CUR, cfg, ex):
+            return
         all_removes = [c for c in facts.calls_named(f, 'remove')]
         direct = [c for c in all_removes if is_direct(c)]
         if direct:
@@ -2711,6 +2869,10 @@ def _remove_all(ctx):
         if not rec and any(isinstance(n, ast.While) for n in walk_no_nested(f.node)):
             o.undecided(f, f.node, 'recursion', f"{f.qual} has no recursive call but a `while` loop: an iterative walk (explicit stack / "
                                                 f"queue) is not modelled by this rule")
+            return
+        if not rec and any(isinstance(n, (ast.For, ast.ListComp, ast.GeneratorExp, ast.SetComp)) for n in walk_no_nested(f.node)):
+            o.undecided(f, f.node, 'recursion', f"{f.qual} has no recursive call but a loop this rule does not understand as a walk over "
+                                                f"the subtree")
             return
         if not rec:
             o.refute(f, f.node, 'recursion', "the tree walk does not descend into the children: only root tasks can be removed")
